@@ -127,7 +127,7 @@ def _w_parquet3(d):
 def _w_json3(d):
     p = os.path.join(d, "r.json")
     with open(p, "w") as f:
-        json.dump([{"a": 1, "b": "x", "c": 0.5}, {"b": "", "a": 2}, {"c": 2.0, "a": 3, "b": "z"}], f)
+        json.dump([{"a": 1, "b": "x", "z": 9}, {"b": "", "a": 2}, {"c": 2.0, "a": 3, "b": "z"}], f)      # c first occurs in the last item
     return p
 
 
@@ -198,9 +198,10 @@ restriction_driver("dataiter/list_of_dicts.py::ListOfDicts.from_json[restriction
 def _w_geojson3(d):
     p = os.path.join(d, "r.geojson")
     doc = {"type": "FeatureCollection", "name": "n", "features": [
-        {"type": "Feature", "properties": {"a": 1, "b": "x", "c": 0.5}, "geometry": {"type": "Point", "coordinates": [1, 2]}},
+        {"type": "Feature", "properties": {"a": 1, "b": "x", "z": 9}, "geometry": {"type": "Point", "coordinates": [1, 2]}},
         {"type": "Feature", "properties": {"b": "", "a": 2}, "geometry": None},
         {"type": "Feature", "properties": {"c": 2.0, "a": 3, "b": "z"}, "geometry": {"type": "Point", "coordinates": [3, 4]}}]}
+    # heterogeneous property sets: column c first occurs in the LAST feature, the first feature has an unrequested key z
     with open(p, "w") as f:
         json.dump(doc, f)
     return p
@@ -332,3 +333,129 @@ def c06_vectors(run):
             run.check([name, vi], _snap(v) == sv, expected=sv, got=_snap(v), clause=f"{name}: receiver unchanged")
         arrs = _arrays_of(got)
         run.check([name, vi], not any(np.shares_memory(a, v) for a in arrs), expected="no shared memory", got="shared", clause=f"{name}: result shares no memory with the receiver")
+
+
+# ---- C18: GeoJSON read / write faithful to the feature collection (bounded run-time contracts; see contracts/io.py) ----
+_GEOMS = [{"type": "Point", "coordinates": [1.5, 2]}, None, {"type": "LineString", "coordinates": [[0, 0], [1, 1.25]]}]
+_PROPSETS = [{}, {"a": 1}, {"a": None, "b": "x"}, {"b": "", "c": 2.5}, {"c": True, "a": 2 ** 53 + 1}, {"b": "ä\"\\n", "d": False}]
+_METAS = [{}, {"name": "n"}, {"crs": {"type": "name", "properties": {"name": "urn:x"}}, "bbox": [0, 1.5, 2, 3]},
+          {"we\"ird \\ key": [1, None, "ü"], "name": ""}]
+
+
+def _feature_collections(nmax):
+    for n in range(nmax + 1):
+        for props in itertools.product(range(len(_PROPSETS)), repeat=n):
+            for mi in range(len(_METAS)):
+                yield list(props), mi
+
+
+def _json_eq(a, b):
+    if isinstance(a, float) and isinstance(b, float):
+        return a == b or (a != a and b != b)
+    if isinstance(a, dict) and isinstance(b, dict):
+        return a.keys() == b.keys() and all(_json_eq(a[k], b[k]) for k in a)
+    if isinstance(a, list) and isinstance(b, list):
+        return len(a) == len(b) and all(_json_eq(x, y) for x, y in zip(a, b))
+    if isinstance(a, bool) or isinstance(b, bool):
+        return a is b
+    return a == b
+
+
+def _cell_is(v, expected, present):
+    """a frame cell against the JSON value of the property (absent or null -> missing)"""
+    miss = v is None or (isinstance(v, float) and v != v) or (isinstance(v, str) and v == "")
+    if not present or expected is None or expected == "":
+        return miss
+    if isinstance(expected, bool):
+        return bool(v) is expected and not miss
+    return (not miss) and (v == expected or (isinstance(expected, int) and float(v) == float(expected)))
+
+
+@driver("dataiter/geojson.py::GeoJSON.read[faithful]")
+def geojson_read_driver(run):
+    n = 3 if run.tier == "thorough" else 2
+    run.bound = (f"feature collections of <= {n} features over {len(_PROPSETS)} property sets (bool/int/float/str/null, heterogeneous keys, 2**53+1, "
+                 f"escapes) x 3 geometries (incl. null) x {len(_METAS)} sets of extra top-level members (nested values, a key needing escapes)")
+    d = tempfile.mkdtemp(prefix="vfgj")
+    try:
+        for props, mi in run.inputs(_feature_collections(n)):
+            feats = [{"type": "Feature", "properties": dict(_PROPSETS[p]), "geometry": _GEOMS[i % len(_GEOMS)]} for i, p in enumerate(props)]
+            doc = dict({"type": "FeatureCollection"}, **_METAS[mi], features=feats)
+            p = os.path.join(d, "r.geojson")
+            with open(p, "w", encoding="utf-8") as f:
+                json.dump(doc, f, ensure_ascii=False)
+            try:
+                g = GeoJSON.read(p)
+                keys = []
+                for ft in feats:
+                    for k in ft["properties"]:
+                        if k not in keys:
+                            keys.append(k)
+                ok = g.nrow == len(feats) and g.colnames == keys + ["geometry"]
+                if ok:
+                    for i, ft in enumerate(feats):
+                        ok = ok and _json_eq(g.geometry[i], ft["geometry"])
+                        for k in keys:
+                            ok = ok and _cell_is(g[k][i], ft["properties"].get(k), k in ft["properties"])
+                exp_meta = {k: v for k, v in doc.items() if k != "features"}
+                ok = ok and _json_eq(dict(g.metadata), exp_meta)
+                obs = {"columns": {c: list(g[c]) for c in g.colnames}, "metadata": dict(g.metadata)}
+            except Exception as e:
+                ok, obs = False, f"raised {type(e).__name__}: {e}"
+            run.check([props, mi], ok, expected=doc, got=obs, clause="read: one row per feature in order, a column per property key (missing where absent), geometry unchanged, other members in metadata")
+    finally:
+        shutil.rmtree(d, ignore_errors=True)
+
+
+@driver("dataiter/geojson.py::GeoJSON.write[faithful]")
+def geojson_write_driver(run):
+    n = 3 if run.tier == "thorough" else 2
+    run.bound = f"the same feature collections x indent in (default, 0, 4, None): written file is valid JSON with the same features (absent == null) in order; re-reading gives the same frame and metadata"
+    d = tempfile.mkdtemp(prefix="vfgj")
+    try:
+        gen = ((props, mi, ind) for props, mi in _feature_collections(n) for ind in ("default", 0, 4, None))
+        for props, mi, ind in run.inputs(gen):
+            feats = [{"type": "Feature", "properties": dict(_PROPSETS[p]), "geometry": _GEOMS[i % len(_GEOMS)]} for i, p in enumerate(props)]
+            doc = dict({"type": "FeatureCollection"}, **_METAS[mi], features=feats)
+            p, q = os.path.join(d, "in.geojson"), os.path.join(d, "out.geojson")
+            with open(p, "w", encoding="utf-8") as f:
+                json.dump(doc, f, ensure_ascii=False)
+            try:
+                g = GeoJSON.read(p)
+                g.write(q, **({} if ind == "default" else {"indent": ind}))
+                with open(q, encoding="utf-8") as f:
+                    text = f.read()
+                try:
+                    back = json.loads(text)
+                    valid = True
+                except Exception as e:
+                    back, valid = f"invalid JSON: {e}", False
+                run.check([props, mi, ind], valid, expected="valid JSON", got=text[:300], clause="write: the file is valid JSON")
+                if not valid:
+                    continue
+                okf = isinstance(back.get("features"), list) and len(back["features"]) == len(feats)
+                if okf:
+                    for bf, ft in zip(back["features"], feats):
+                        okf = okf and bf.get("type") == "Feature" and _json_eq(bf.get("geometry"), ft["geometry"])
+                        bp, fp = bf.get("properties", {}), ft["properties"]
+                        for k in set(bp) | set(fp):
+                            bv, fv = bp.get(k), fp.get(k)
+                            bv = None if bv == "" or (isinstance(bv, float) and bv != bv) else bv
+                            fv = None if fv == "" else fv
+                            okf = okf and ((bv is None and fv is None) or (bv is not None and fv is not None and (bv == fv or float(bv) == float(fv))))
+                okm = _json_eq({k: v for k, v in back.items() if k != "features"}, {k: v for k, v in doc.items() if k != "features"})
+                run.check([props, mi, ind], okf, expected=feats, got=back.get("features"), clause="write: same features (absent == null) in the same order")
+                run.check([props, mi, ind], okm, expected={k: v for k, v in doc.items() if k != "features"},
+                          got={k: v for k, v in back.items() if k != "features"}, clause="write: other top-level members kept")
+                g2 = GeoJSON.read(q)
+                same = g2.colnames == g.colnames and g2.nrow == g.nrow and _json_eq(dict(g2.metadata), dict(g.metadata))
+                if same:
+                    for c in g.colnames:
+                        na1, na2 = list(g[c].is_na()), list(g2[c].is_na())
+                        same = same and na1 == na2 and all(m or _json_eq(a, b) or a == b for a, b, m in zip(g[c].tolist(), g2[c].tolist(), na1))
+                run.check([props, mi, ind], same, expected={c: g[c].tolist() for c in g.colnames}, got={c: g2[c].tolist() for c in g2.colnames},
+                          clause="write then read: same columns, values, missing positions and metadata")
+            except Exception as e:
+                run.check([props, mi, ind], False, expected="written and re-read", got=f"raised {type(e).__name__}: {e}", clause="write answers")
+    finally:
+        shutil.rmtree(d, ignore_errors=True)
